@@ -19,7 +19,7 @@ DIR_MOVES = [("src", "pkg"), ("lib", "src/lib"), ("src/deep", "deep"), ("pkg", "
 SHAPES = ("one2", "one16", "one31", "one61", "multi", "nested", "strings", "enc_latin1", "multi_ws", "empty", "one30",
           "big", "uni", "twins", "nocl", "bare31")
 PATTERNS = ["src", "lib/", "*.js", "src/deep", "src/*", "a.py", "K.cs", "deep/", "*.ts", "lib/f.c", "pkg", "b.js", "lib/*"]
-OTHER_VERSIONS = ["0.0.1", "0.18.0", "0.18.10", "9.9.9", "", "0.18.1 "]
+OTHER_VERSIONS = ["0.0.1", "0.18.0", "0.18.10", "9.9.9", "", "0.18.1 ", "<absent>", "<absent>"]
 
 
 def _content(rng, path):
@@ -118,6 +118,8 @@ def random_op(rng, files, weights):
             op["spelling"] = rng.choice(("dot", "rel_parent", "abs", "dotdot", "abs_dotdot", "rel_outside", "trailing", "symlink", "symlink_abs"))
         if rng.random() < 0.1:
             op["verbose"] = True
+        if rng.random() < 0.08:
+            op["read_fault"] = {"n": rng.randrange(0, 14)}   # EIO on the n-th tree file the scan opens
         return op
     if k == "report":
         return {"op": "report", "fmt": rng.choice(("text", "markdown")), "nonce": n}
